@@ -527,7 +527,7 @@ impl Monitor {
                     let (o, n) = (old >> 1, new >> 1);
                     self.mix(0x23 ^ ((n as u64 & 0xffff) << 8));
                     self.log(|| format!("global-epoch {} -> {}", o, n));
-                    if !(n == o || n == o.wrapping_add(1)) {
+                    if !(n == o || n == epoch_succ(o)) {
                         self.violate(
                             "C14",
                             "epoch-jump",
@@ -543,8 +543,8 @@ impl Monitor {
                     // whatever the participant announces by now
                     for u in 0..sched::MAX_THREADS {
                         if let (Some(_), Some((_, ce))) = (self.ebr.active[u], self.ebr.cs_pin[u]) {
-                            let d = n.wrapping_sub(ce);
-                            if d > 1 && d < usize::MAX / 2 {
+                            let d = epoch_dist(n, ce);
+                            if d > 1 && d < EPOCH_MOD / 2 {
                                 self.violate(
                                     "C14",
                                     "critical-section-sees-two-advances",
@@ -595,7 +595,7 @@ impl Monitor {
         let mut bad = None;
         for (&l, &p) in self.locals.iter() {
             if let Some(e) = p {
-                let d = g.wrapping_sub(e);
+                let d = epoch_dist(g, e);
                 if d > 1 {
                     bad = Some((l, e));
                 }
@@ -1134,6 +1134,17 @@ fn tid_str() -> String {
     } else {
         t.to_string()
     }
+}
+
+/// Epoch values live in 63 bits (the lowest bit of the word is the pinned flag): the successor of
+/// 2^63-1 is 0.
+pub const EPOCH_MOD: usize = 1 << 63;
+pub fn epoch_succ(e: usize) -> usize {
+    (e + 1) & (EPOCH_MOD - 1)
+}
+/// a - b modulo 2^63
+pub fn epoch_dist(a: usize, b: usize) -> usize {
+    a.wrapping_sub(b) & (EPOCH_MOD - 1)
 }
 
 pub fn fx(s: &str) -> u64 {
